@@ -108,7 +108,10 @@ Proof.
   unfold skel, sproj, tproj; cbn. rewrite map_map. reflexivity.
 Qed.
 Lemma ks_delete_cft : forall name, keeps_skel (fun p => delete_cft p name).
-Proof. intros name p; reflexivity. Qed.
+Proof.
+  intros name p. unfold delete_cft. destruct (find_first (is_cft name) (pa_cfts p)); cbn; auto.
+  destruct (existsb (uses_topic name) (pa_subs p)); cbn; auto.
+Qed.
 
 (* ------------------------------------------------------------------ the operations that change the skeleton *)
 Definition preserves (k : part -> part * ret) : Prop :=
@@ -283,6 +286,7 @@ Proof.
   destruct (find_first (is_topic name) (pa_topics p)); [|unchanged].
   destruct (existsb (uses_topic (t_name t)) (pa_pubs p)); [unchanged|].
   destruct (existsb (uses_topic (t_name t)) (pa_subs p)); [unchanged|].
+  destruct (existsb (fun c => c_rel c =? name) (pa_cfts p)); [unchanged|].
   cbn [fst snd]. split; [|split; [reflexivity|discriminate]].
   apply part_inv_build with (p := p); auto; try reflexivity.
   - intros [|]; [apply (pi_gc _ Hi SPub)|apply (pi_gc _ Hi SSub)].
